@@ -58,6 +58,26 @@ for it in range(N):
     s3 = play(ops, data, k, False, prop_fee); evals += 1
     # (allocate stops its fee search within an ABSOLUTE 1e-8 of the amount, so the comparison across scales is to 1e-6, not to the last digit)
     if not np.allclose(s3.prices.values, p.values, rtol=1e-6, atol=0): bad("index-depends-on-the-amount-of-capital", scale=k, a=[float(x) for x in p.values], b=[float(x) for x in s3.prices.values])
+    # through the Backtest loop: every date of the data is a date of the index, also one on which nothing is quoted while the book is flat, and a
+    # flow scheduled on it is a flow of that date
+    if it % 3 == 0:
+        from bt import algos as A_
+        d4 = data.copy(); kq = int(rs.randint(1, 3)); d4.iloc[kq] = np.nan
+        fl4 = pd.Series(0.0, index=idx); fl4.iloc[kq] = float(rs.choice([500.0, -200.0])); fl4.iloc[-1] = 300.0
+        class Flows4(bt.Algo):
+            def __call__(self, target):
+                a_ = float(fl4.get(target.now, 0.0))
+                if a_: target.adjust(a_)
+                return True
+        t4 = bt.Backtest(bt.Strategy("b", [Flows4(), A_.RunAfterDate(idx[kq]), A_.RunWeekly(), A_.SelectAll(), A_.WeighEqually(), A_.Rebalance()]), d4, integer_positions=False, initial_capital=1000.0, progress_bar=False); t4.run(); evals += 1
+        p4, v4, f4 = t4.strategy.prices, t4.strategy.values, t4.strategy.flows
+        for d in range(1, len(p4)):
+            base = float(v4.iloc[d - 1]) + float(f4.iloc[d])
+            if abs(base) < 1e-9: continue
+            want = float(p4.iloc[d - 1]) * float(v4.iloc[d]) / base
+            if not np.isfinite(float(p4.iloc[d])) or abs(float(p4.iloc[d]) - want) > 1e-9 * max(1.0, abs(want)):
+                bad("index-moves-by-value-over-last-value-plus-flows", through="Backtest with an unquoted date while flat", date=str(p4.index[d].date()), got=float(p4.iloc[d]), want=want, values=[float(x) for x in v4.values][:8], flows=[float(x) for x in f4.values][:8]); break
+        if abs(float(f4.loc[idx[kq]]) - float(fl4.iloc[kq])) > 1e-9: bad("a-flow-is-recorded-on-its-own-date", through="Backtest with an unquoted date while flat", date=str(idx[kq].date()), recorded=float(f4.loc[idx[kq]]), scheduled=float(fl4.iloc[kq]))
     if it < 2: samples.append(dict(dates=n, operations=sum(len(v) for v in ops.values()), final_index=float(p.iloc[-1])))
 print("JSON:" + json.dumps(dict(evaluations=evals, distinct=len(distinct), failures=fails[:5], samples=samples,
       rule="random histories on a two-security strategy (fractional positions, optional proportional commission): 0-4 operations per date out of flows, non-flow adjustments, an inflow with an equal loss, allocations, explicit updates; the recorded index is recomputed date by date from the recorded values and flows, compared with a run that inserts redundant updates, and with a run at 0.01x / 7x / 1000x the capital",
